@@ -65,6 +65,9 @@ def t_hdr(F, R):
             try:
                 r = PE(F).call_fn(fid, [hd, Sym("remaining_len")])
             except Undecided as e:
+                if "remaining_len" in str(e):
+                    bad.append((hd, ("depends-on-remaining-length", str(e)[:80]), ("a decision on the control byte alone",)))
+                    continue
                 raise AnchorLost("%s cannot be evaluated for %#04x: %s" % (fid, hd, e))
             nib, fl = hd >> 4, hd & 0xF
             want = spec.get(nib)
@@ -190,61 +193,112 @@ def t_width(F, R):
 
 # ---- T-tname --------------------------------------------------------------------------------------------------------
 
+def _tname_chars():
+    """Every ASCII character, plus non-ASCII characters chosen to expose truncating casts (low byte equal to a forbidden
+    ASCII byte), byte/char confusions (continuation bytes) and the ends of the encoding ranges."""
+    extra = [0x80, 0xA3, 0xAB, 0xE9, 0xFF, 0x100, 0x123, 0x12B, 0x2B00, 0x2300, 0x6E29, 0xFFFD, 0x10000, 0x1F600, 0x10FFFF, 0x7FF, 0x800]
+    return list(range(128)) + extra
+
+
 def t_tname(F, R):
-    """TopicName::is_invalid(value) == (byte length > 65535) || value contains one of '+', '#', U+0000."""
+    """TopicName::is_invalid(value) == (byte length > 65535) || value contains one of '+', '#', U+0000: evaluated on abstract
+    names whose byte length is symbolic (every comparison made on it is logged and both sides of every constant are tried) and
+    whose characters are [c], ['a', c] and [c, 'a'] for every ASCII character c and a set of adversarial non-ASCII characters --
+    whatever way the scan is written (str::contains, chars().any, a byte loop, a table)."""
     fid = "common::types::TopicName::is_invalid"
     state = {}
 
+    def utf8(cs):
+        out = []
+        for c in cs:
+            out += list(chr(c).encode("utf-8", "surrogatepass"))
+        return out
+
+    def is_arg(v):
+        return v == Sym("arg0")
+
     def hook(d, res, args, node, env):
-        if d == "core::str::<impl str>::len":
-            if args[0] != Sym("arg0"):
-                return None
+        name = node["fn"].get("name")
+        if not args or not is_arg(args[0]) or (res or d) in F.fns:
+            return None
+        cs = state["chars"]
+        if d == "core::str::<impl str>::len" or name == "len":
             return Lin(1, 0, state["len"], state["log"])
-        if d == "core::str::<impl str>::contains":
-            state["contains_arg"] = args[0]
-            state["pred"] = args[1]
-            return state["contains"]
-        if d in ("core::str::<impl str>::chars", "core::str::<impl str>::bytes", "core::str::<impl str>::as_bytes") or \
-                (node["fn"].get("name") in ("any", "all", "count", "find", "position", "char_indices")):
-            raise Undecided("topic-name rule is not expressed through str::len and str::contains (%s)" % d)
-        return None
-    results = {}
+        if name == "is_empty":
+            return state["len"] == 0
+        if name == "chars":
+            return Adt("seq-iter", "It", {"0": Tup(list(cs))})
+        if name in ("bytes", "as_bytes"):
+            t = Tup(utf8(cs))
+            return Adt("seq-iter", "It", {"0": t}) if name == "bytes" else t
+        if name == "char_indices":
+            out, off = [], 0
+            for c in cs:
+                out.append(Tup([off, c]))
+                off += len(chr(c).encode("utf-8", "surrogatepass"))
+            return Adt("seq-iter", "It", {"0": Tup(out)})
+        if name in ("contains", "find", "rfind", "matches") and len(args) == 2:
+            pat = args[1]
+            hit = None
+            for i, c in enumerate(cs):
+                if isinstance(pat, int):
+                    m = pat == c
+                elif isinstance(pat, Tup):
+                    m = c in pat.items
+                elif isinstance(pat, tuple) and pat and pat[0] == "str":
+                    m = chr(c) in pat[1] if len(pat[1]) == 1 else None
+                    if m is None:
+                        raise Undecided("string pattern %r" % (pat,))
+                elif isinstance(pat, tuple) and pat and pat[0] in ("closure", "fn"):
+                    m = pe_box[0].truth(pe_box[0].apply(pat, [c]), node)
+                else:
+                    raise Undecided("pattern %r" % (pat,))
+                if m and hit is None:
+                    hit = i
+            if name == "contains":
+                return hit is not None
+            raise Undecided("str::%s" % name)
+        if name in ("deref", "as_ref", "as_str", "borrow"):
+            return args[0]
+        raise Undecided("operation %s on the name" % (d or name))
+    pe_box = [None]
     consts = set()
+    bad = []
+    nev = 0
     todo = {0, 1, S.TOPIC_MAX_BYTES - 1, S.TOPIC_MAX_BYTES, S.TOPIC_MAX_BYTES + 1}
-    pred = None
-    subj_ok = True
+    done = set()
+    shapes = []
+    for c in _tname_chars():
+        shapes += [[c], [ord("a"), c], [c, ord("a")]]
     while todo:
         w = todo.pop()
-        if w in results or w < 0:
+        if w in done or w < 0:
             continue
-        for c in (False, True):
-            state.update({"len": w, "log": [], "contains": c})
+        done.add(w)
+        # the length breakpoints are explored with a harmless name; the character scan with a short length
+        for cs in ([[ord("a")]] + (shapes if w == 1 else [])):
+            state.update({"len": w, "log": [], "chars": cs})
+            pe = PE(F, call_hook=hook)
+            pe_box[0] = pe
             try:
-                r = PE(F, call_hook=hook).call_fn(fid, [Sym("arg0")])
+                r = pe.call_fn(fid, [Sym("arg0")])
             except Undecided as e:
                 raise AnchorLost("TopicName::is_invalid cannot be evaluated: %s" % e)
-            results[(w, c)] = r
+            nev += 1
+            want = (w > S.TOPIC_MAX_BYTES) or any(chr(c) in S.TOPIC_NAME_FORBIDDEN for c in cs)
+            if r is not want:
+                bad.append((w, "".join(chr(c) for c in cs), r))
             for _op, k in state["log"]:
                 if k not in consts:
                     consts.add(k)
                     todo |= {k - 1, k, k + 1}
-            if "pred" in state:
-                pred = state["pred"]
-                subj_ok = subj_ok and state.get("contains_arg") == Sym("arg0")
-        results[w] = True
-    bad = [(w, c, results[(w, c)]) for (w, c) in [k for k in results if isinstance(k, tuple)]
-           if results[(w, c)] != ((w > S.TOPIC_MAX_BYTES) or c)]
     R.check(not bad, "T-tname", "length-or-contains",
-            "TopicName::is_invalid is not `len > 65535 || contains(forbidden)`: e.g. len=%s contains=%s -> %s" % (bad[0] if bad else ("", "", "")), where=fid)
-    R.check(pred is not None and subj_ok, "T-tname", "contains-subject", "the forbidden-character test is not applied to the whole name", where=fid)
-    # the predicate: evaluate for every char class boundary it compares with
-    chars = None
-    if pred is not None:
-        chars = _char_set(F, pred)
-    R.check(chars == S.TOPIC_NAME_FORBIDDEN, "T-tname", "forbidden-set",
-            "TopicName::is_invalid rejects characters %s; the rule forbids exactly %s" % (
-                sorted(map(repr, chars)) if chars is not None else "?", sorted(map(repr, S.TOPIC_NAME_FORBIDDEN))), where=fid)
-    R.sample({"rule": "T-tname", "breakpoints": sorted(consts), "forbidden": sorted(chars) if chars else None})
+            "TopicName::is_invalid is not `byte length > 65535 || contains one of + # NUL`: %d disagreements, e.g. length %s, characters %r -> %s" % (
+                (len(bad),) + (bad[0] if bad else ("", "", ""))), where=fid)
+    R.check(S.TOPIC_MAX_BYTES in consts, "T-tname", "length-bound", "TopicName::is_invalid never compares the byte length with %d (constants seen: %s)" % (
+        S.TOPIC_MAX_BYTES, sorted(consts)), where=fid)
+    R.sample({"rule": "T-tname", "breakpoints": sorted(consts), "evaluations": nev})
+    R.floor("T-tname", "evaluations", nev, 300)
 
 
 def _char_set(F, pred):
